@@ -358,6 +358,10 @@ func (o ListOpts) sendsRdev(mode int32) bool {
 // equal — a conforming sender cannot set them otherwise). It returns an error
 // if e.Flags asks for a compression the values do not allow.
 func EncodeEntry(w *W, e, prev *FEntry, o ListOpts) error {
+	if prev == nil {
+		// a sender's "previous" values start out as zero
+		prev = &FEntry{}
+	}
 	flags := 0
 	if e.TopDir {
 		flags |= XmitTopDir
